@@ -2,6 +2,7 @@
 at run time around the REAL function over a boundary corpus + seeded random inputs, optionally
 with a chosen-output PRF.  Used when a path is UNDECIDED (construct outside the subset)."""
 import random
+import zlib
 import time
 from . import prims as U
 from .engine import Ctx
@@ -17,12 +18,30 @@ class RandomVals(dict):
         self.rng = rng
 
 
+# domain values the uniform sampler would practically never draw (matched by substring of the input's name)
+DEFAULT_HINTS = {
+    "version": [0x0488B21E, 0x0488ADE4, 0x043587CF, 0x04358394, 0x049D7CB2, 0x049D7878, 0x044A5262, 0x044A4E28,
+                0x04B24746, 0x04B2430C, 0x045F1CF6, 0x045F18BC],
+    "depth": [0, 1, 127, 128, 129, 254, 255],
+}
+
+
 class RandomBuilder(ConcreteBuilder):
     def __init__(self, ctx, rng, vals=None):
         super().__init__(ctx, vals if vals is not None else {})
         self.rng = rng
+        self.hints = {}
+
+    def hint(self, name, values):
+        self.hints[name] = list(values)
 
     def int(self, name, lo=None, hi=None):
+        if name not in self.vals and name not in self.hints:
+            for key, vs in DEFAULT_HINTS.items():
+                if key in name:
+                    self.hints[name] = [v for v in vs if (lo is None or v >= lo) and (hi is None or v < hi)]
+        if name not in self.vals and self.hints.get(name) and self.rng.random() < (0.7 if "version" in name else 0.35):
+            self.vals[name] = self.rng.choice(self.hints[name])
         if name not in self.vals:
             r = self.rng.random()
             cands = [b for b in BOUNDARY if (lo is None or b >= lo) and (hi is None or b < hi)]
@@ -66,25 +85,38 @@ class RandomBuilder(ConcreteBuilder):
         return super().case(name, n)
 
 
-def _interference_calls(contract, vals, stubs, rng, k=4):
+def _perturbations(v, rng):
+    """neighbours, single-bit flips and (for scalars) the negated key: same x coordinate, other parity"""
+    if isinstance(v, bool):
+        return [not v]
+    cands = [v + 1, v - 1, v + 2 ** 8, v ^ 1, v + rng.randrange(1, 2 ** 64)]
+    if 0 <= v < U.N:
+        cands += [U.N - v, U.N - 2 - v]        # the negated scalar, for either convention k = v or k = v mod (n-1) + 1
+    if v > 2 ** 64:
+        cands += [v ^ (1 << rng.randrange(0, 256))]
+    return cands
+
+
+def _interference_calls(contract, vals, stubs, rng, k=4, exhaustive=False):
+    """exhaustive: every one-variable perturbation of every scalar input (done for the first samples of each
+    contract, so that the outcome does not hang on the draw); otherwise k random ones"""
     from .replay import ConcreteBuilder, Materializer, install_stubs
     from .verify import resolve_target
     names = [n for n, v in vals.items() if isinstance(v, (bool, int))]
     if not names:
         return
+    if exhaustive:
+        plan = [(name, c) for name in names for c in _perturbations(vals[name], rng)][:80]
+    else:
+        plan = [(name, rng.choice(_perturbations(vals[name], rng))) for name in rng.sample(names, min(k, len(names)))]
     undo = install_stubs(stubs)
+    t0 = time.time()
     try:
-        for name in rng.sample(names, min(k, len(names))):
+        for name, c in plan:
+            if time.time() - t0 > 4.0:
+                break
             v2 = dict(vals)
-            v = vals[name]
-            if isinstance(v, bool):
-                v2[name] = not v
-            else:
-                # neighbours, single-bit flips and (for scalars) the negated key: same x coordinate, other parity
-                cands = [v + 1, v - 1, v + 2 ** 8, v ^ 1, v + rng.randrange(1, 2 ** 64)]
-                if v > 2 ** 64:
-                    cands += [v ^ (1 << rng.randrange(0, 256)), U.N - 2 - v, U.N - v]
-                v2[name] = rng.choice(cands)
+            v2[name] = c
             ctx = Ctx([])
             CB = ConcreteBuilder(ctx, v2)
             try:
@@ -109,10 +141,11 @@ def _interference_calls(contract, vals, stubs, rng, k=4):
 
 
 def bounded_contract(contract, seed, n=300, budget_s=20.0, prf_corners=True):
-    rng = random.Random(seed * 7919 + hash(type(contract).__name__) % 1000)
+    rng = random.Random(seed * 7919 + zlib.crc32(type(contract).__name__.encode()) % 1000)     # (str hash is salted per process)
     t0 = time.time()
     evals = 0
     skipped = 0
+    t_interf = 0.0
     for i in range(n):
         if time.time() - t0 > budget_s:
             break
@@ -137,7 +170,9 @@ def bounded_contract(contract, seed, n=300, budget_s=20.0, prf_corners=True):
         # (fresh objects), so that state shared between calls (module / class-level caches keyed by a
         # subset of the inputs) is poisoned before the call that is checked
         try:
-            _interference_calls(contract, vals, stubs, rng)
+            ti = time.time()
+            _interference_calls(contract, vals, stubs, rng, exhaustive=(evals < 4 or i % 8 == 0) and t_interf < 0.4 * budget_s)
+            t_interf += time.time() - ti
         except Exception:
             pass
         import signal
